@@ -477,16 +477,36 @@ pub struct LeapText {
     pub june: bool,
     /// 0 plain, 1 ' UTC', 2 'Z', 3 ' TAI', 4 space separator, 5 with a fraction
     pub form: u8,
+    /// month (0: derive from `june`), day offset from the month's last day, hour, minute
+    #[serde(default)]
+    pub m: u8,
+    #[serde(default)]
+    pub back: u8,
+    #[serde(default = "h23")]
+    pub hh: u8,
+    #[serde(default = "m59")]
+    pub mm: u8,
+}
+fn h23() -> u8 {
+    23
+}
+fn m59() -> u8 {
+    59
 }
 
 fn leap_text_enum(_t: Tier, shard: usize, sink: &mut dyn FnMut(LeapText) -> bool) {
+    // every month end 1958-2040 and the day before it, at 23:59 and at other hours / minutes, six text forms
     let mut i = 0;
-    for y in 1960..=2030 {
-        for june in [true, false] {
-            for form in 0..6u8 {
-                i += 1;
-                if i % SHARDS == shard && !sink(LeapText { y, june, form }) {
-                    return;
+    for y in 1958..=2040 {
+        for m in 1..=12u8 {
+            for back in [0u8, 1] {
+                for (hh, mm) in [(23u8, 59u8), (23, 58), (22, 59), (0, 59), (12, 0)] {
+                    for form in 0..6u8 {
+                        i += 1;
+                        if i % SHARDS == shard && !sink(LeapText { y, june: m == 6, form, m, back, hh, mm }) {
+                            return;
+                        }
+                    }
                 }
             }
         }
@@ -494,13 +514,15 @@ fn leap_text_enum(_t: Tier, shard: usize, sink: &mut dyn FnMut(LeapText) -> bool
 }
 
 fn leap_text_oracle(c: &LeapText) -> Verdict {
-    let (m, d) = if c.june { (6, 30) } else { (12, 31) };
-    if (c.y, m) == (1971, 12) {
+    let m = if c.m == 0 { if c.june { 6 } else { 12 } } else { c.m as u32 };
+    let d = month_len(c.y, m) - c.back as u32;
+    if (c.y, m, d, c.hh, c.mm) == (1971, 12, 31, 23, 59) {
         return Verdict::Skip("1971-12-31T23:59:60 is left open by the statement");
     }
     let next_day_s = (days_1900(c.y, m, d) + 1) * 86_400;
-    let is_leap_day = leap_table().iter().skip(1).any(|(ts, _)| *ts == next_day_s);
-    let body = format!("{:04}-{:02}-{:02}{}23:59:60", c.y, m, d, if c.form == 4 { ' ' } else { 'T' });
+    // second 60 exists only at 23:59 of a day at whose end IERS inserted a leap second
+    let is_leap_day = c.hh == 23 && c.mm == 59 && leap_table().iter().skip(1).any(|(ts, _)| *ts == next_day_s);
+    let body = format!("{:04}-{:02}-{:02}{}{:02}:{:02}:60", c.y, m, d, if c.form == 4 { ' ' } else { 'T' }, c.hh, c.mm);
     let txt = match c.form {
         1 => format!("{body} UTC"),
         2 => format!("{body}Z"),
@@ -516,7 +538,7 @@ fn leap_text_oracle(c: &LeapText) -> Verdict {
     };
     let a = lib!(Epoch::from_str(&txt));
     let b = lib!(Epoch::from_gregorian_str(&txt));
-    ensure!(a.is_ok() == is_leap_day && b.is_ok() == is_leap_day, "{:?}: from_str is_ok = {}, from_gregorian_str is_ok = {}; IERS inserted a leap second at the end of that day: {}", txt, a.is_ok(), b.is_ok(), is_leap_day);
+    ensure!(a.is_ok() == is_leap_day && b.is_ok() == is_leap_day, "{:?}: from_str is_ok = {}, from_gregorian_str is_ok = {}; second 60 exists there (23:59 of a day that ends with an IERS leap second): {}", txt, a.is_ok(), b.is_ok(), is_leap_day);
     if !fmt.is_empty() {
         let f = lib!(Epoch::from_format_str(&txt, fmt));
         ensure!(f.is_ok() == is_leap_day, "{:?} with format {:?}: is_ok = {}; leap-second day: {}", txt, fmt, f.is_ok(), is_leap_day);
